@@ -4,9 +4,13 @@
 //!   * per rule:  `CbRuleEquivalent::try_from(NetworkFilter)` / `CbRule::try_from(CosmeticFilter)`
 //!     (emitted rules field by field, or the error variant, or a panic) vs `convert_network` /
 //!     `convert_cosmetic` on the parsed rule's fields;
-//!   * per list:  `FilterSet::new(true)` + `add_filters` + `into_content_blocking()` (rules in order
-//!     and `filters_used`) vs `into_content_blocking` of the model.
-//! Oracle (independent of Coq): no panic; every string ASCII; never if-domain and unless-domain;
+//!   * per list:  `FilterSet::new(true)` + a random interleaving of `add_filter` / `add_filters` /
+//!     `add_filter_list` / `clone` (`gen_script`) + `into_content_blocking()` (rules in order and
+//!     `filters_used`) vs `into_content_blocking` of the model on the lines the set was given.
+//! Oracle (independent of Coq): entry points (`oracle_script`): the conversion of a debug set does
+//! not depend on which entry points loaded the rules (equal to `new(true)` + `add_filters`),
+//! `add_filter` answers Ok exactly for rules, the same calls on `new(false)` / `default()` are
+//! refused with Err(()) (documented), never a panic; then, on the result: no panic; every string ASCII; never if-domain and unless-domain;
 //! every ignore-previous-rules entry after every other entry; `filters_used` = the lines that
 //! produce output when converted alone (network lines first, then cosmetic lines, in order);
 //! url-filter accepted by a conservative Safari-subset recogniser and by the `regex` crate; for
@@ -461,6 +465,197 @@ fn run_list(lines: &[String], debug: bool) -> IntoResult {
     })
 }
 
+// ------------------------------------------------------------------------------- entry points
+/// How the `FilterSet` is created.
+#[derive(Clone, Copy, Debug, PartialEq)]
+enum Ctor {
+    New(bool),
+    /// `FilterSet::default()` = `FilterSet::new(false)` outside the crate's own tests
+    Default,
+}
+/// One call on the `FilterSet` before `into_content_blocking()`.
+#[derive(Clone, Debug)]
+enum Op {
+    /// `add_filter(line)`: one rule at a time
+    AddFilter(String),
+    /// `add_filters(lines)`
+    AddFilters(Vec<String>),
+    /// `add_filter_list(text)`
+    AddFilterList(String),
+    /// `set = set.clone()` (the derived Clone is public API too)
+    CloneSet,
+}
+#[derive(Clone, Debug)]
+struct Script {
+    ctor: Ctor,
+    ops: Vec<Op>,
+}
+impl Script {
+    fn debug(&self) -> bool {
+        self.ctor == Ctor::New(true)
+    }
+    /// The rule lines the set is given, in order, from the documented meaning of the entry points
+    /// (a list text is split at line feeds, one carriage return before the line feed dropped).
+    fn effective_lines(&self) -> Vec<String> {
+        let mut v = vec![];
+        for op in &self.ops {
+            match op {
+                Op::AddFilter(l) => v.push(l.clone()),
+                Op::AddFilters(ls) => v.extend(ls.iter().cloned()),
+                Op::AddFilterList(t) => {
+                    let mut parts: Vec<&str> = t.split('\n').collect();
+                    if parts.last() == Some(&"") {
+                        parts.pop();
+                    }
+                    v.extend(parts.into_iter().map(|l| l.strip_suffix('\r').unwrap_or(l).to_string()));
+                }
+                Op::CloneSet => {}
+            }
+        }
+        v
+    }
+    fn to_json(&self) -> Value {
+        json!({
+            "ctor": match self.ctor { Ctor::New(true) => "new_true", Ctor::New(false) => "new_false", Ctor::Default => "default" },
+            "ops": self.ops.iter().map(|o| match o {
+                Op::AddFilter(l) => json!({"op": "add_filter", "line": l}),
+                Op::AddFilters(ls) => json!({"op": "add_filters", "lines": ls}),
+                Op::AddFilterList(t) => json!({"op": "add_filter_list", "text": t}),
+                Op::CloneSet => json!({"op": "clone"}),
+            }).collect::<Vec<_>>(),
+        })
+    }
+    fn from_json(v: &Value) -> Option<Script> {
+        let ctor = match v["ctor"].as_str()? { "new_true" => Ctor::New(true), "new_false" => Ctor::New(false), _ => Ctor::Default };
+        let mut ops = vec![];
+        for o in v["ops"].as_array()? {
+            ops.push(match o["op"].as_str()? {
+                "add_filter" => Op::AddFilter(o["line"].as_str()?.to_string()),
+                "add_filters" => Op::AddFilters(o["lines"].as_array()?.iter().map(|s| s.as_str().unwrap_or("").to_string()).collect()),
+                "add_filter_list" => Op::AddFilterList(o["text"].as_str()?.to_string()),
+                _ => Op::CloneSet,
+            });
+        }
+        Some(Script { ctor, ops })
+    }
+    /// entry-point sequence as a short word, e.g. "new(true) 1 n L c 1"
+    fn shape(&self) -> String {
+        let mut s = match self.ctor { Ctor::New(b) => format!("new({})", b), Ctor::Default => "default()".to_string() };
+        for o in &self.ops {
+            s.push_str(match o { Op::AddFilter(_) => " add_filter", Op::AddFilters(_) => " add_filters", Op::AddFilterList(_) => " add_filter_list", Op::CloneSet => " clone" });
+        }
+        s
+    }
+}
+
+/// Result of a script: what `add_filter` answered per call (true = Ok) and the conversion.
+fn run_script(sc: &Script) -> Result<(Vec<(String, bool)>, Result<(Vec<CbRule>, Vec<String>), ()>), String> {
+    let sc = sc.clone();
+    catch(move || {
+        let mut fs = match sc.ctor { Ctor::New(d) => FilterSet::new(d), Ctor::Default => FilterSet::default() };
+        let mut answers = vec![];
+        for op in &sc.ops {
+            match op {
+                Op::AddFilter(l) => answers.push((l.clone(), fs.add_filter(l, ParseOptions::default()).is_ok())),
+                Op::AddFilters(ls) => { fs.add_filters(ls, ParseOptions::default()); }
+                Op::AddFilterList(t) => { fs.add_filter_list(t, ParseOptions::default()); }
+                Op::CloneSet => fs = fs.clone(),
+            }
+        }
+        (answers, fs.into_content_blocking())
+    })
+}
+
+/// Distribute `lines` over a random interleaving of the entry points.
+fn gen_script(r: &mut Rng, lines: &[String], ctor: Ctor) -> Script {
+    let mut ops = vec![];
+    let mut i = 0;
+    // one in five lists goes through a single entry point for the whole list
+    let single = if r.chance(1, 5) { Some(r.below(3)) } else { None };
+    while i < lines.len() {
+        let kind = single.unwrap_or_else(|| r.below(3));
+        let rest = lines.len() - i;
+        // add_filter takes one line; the others a run of lines (sometimes none)
+        let k = if kind == 0 { 1 } else if single.is_some() { rest } else if r.chance(1, 8) { 0 } else { r.range(1, rest) };
+        let chunk = &lines[i..i + k];
+        match kind {
+            0 => ops.push(Op::AddFilter(chunk[0].clone())),
+            1 => ops.push(Op::AddFilters(chunk.to_vec())),
+            _ => {
+                // list text: LF or CRLF, with or without a final newline, sometimes a comment / blank line
+                let nl = if r.chance(1, 4) { "\r\n" } else { "\n" };
+                let mut t = String::new();
+                if r.chance(1, 6) {
+                    t.push_str(r.pick(&["! Title: list", "[Adblock Plus 2.0]", "", "! Expires: 1 day"]));
+                    t.push_str(nl);
+                }
+                t.push_str(&chunk.join(nl));
+                if r.chance(1, 2) && !chunk.is_empty() {
+                    t.push_str(nl);
+                }
+                ops.push(Op::AddFilterList(t));
+            }
+        }
+        i += k;
+        if r.chance(1, 10) {
+            ops.push(Op::CloneSet);
+        }
+    }
+    if r.chance(1, 12) {
+        ops.push(match r.below(4) { 0 => Op::AddFilters(vec![]), 1 => Op::AddFilterList(String::new()), 2 => Op::CloneSet, _ => Op::AddFilter(String::new()) });
+    }
+    Script { ctor, ops }
+}
+
+/// JSON of a conversion result with the `resource-type` sets (hash sets: no order) sorted.
+fn into_json(res: &IntoResult) -> Value {
+    match res {
+        Ok(Ok((rules, used))) => {
+            let mut rv = json!(rules);
+            for r in rv.as_array_mut().into_iter().flatten() {
+                if let Some(a) = r.get_mut("trigger").and_then(|t| t.get_mut("resource-type")).and_then(|t| t.as_array_mut()) {
+                    a.sort_by_key(|x| x.as_str().unwrap_or("").to_string());
+                }
+            }
+            json!({"rules": rv, "filters_used": used})
+        }
+        Ok(Err(())) => json!("Err(())"),
+        Err(p) => json!({"panic": p}),
+    }
+}
+
+/// The entry-point oracle on one script: returns the failures and, for a debug set, the conversion
+/// result (to be judged by `oracle_list` and the Coq list case on the effective lines).
+fn oracle_script(sc: &Script) -> (Vec<String>, IntoResult) {
+    let mut fails = vec![];
+    let lines = sc.effective_lines();
+    let (answers, res): (Vec<(String, bool)>, IntoResult) = match run_script(sc) {
+        Err(p) => {
+            fails.push(format!("{}: panicked: {}", sc.shape(), p));
+            return (fails, Err(p));
+        }
+        Ok((a, r)) => (a, Ok(r)),
+    };
+    // add_filter answers Ok exactly for the lines that are rules
+    for (l, ok) in &answers {
+        let p = parse_line(l);
+        if *ok != (p.net.is_some() || p.cos.is_some()) {
+            fails.push(format!("add_filter({:?}) answered {} but parse_filter says the line is {}a rule", l, if *ok { "Ok" } else { "Err" }, if *ok { "not " } else { "" }));
+        }
+    }
+    if sc.debug() {
+        // the conversion does not depend on which entry points loaded the rules
+        let canon = run_list(&lines, true);
+        if into_json(&res) != into_json(&canon) {
+            fails.push(format!("{}: into_content_blocking gives {} but FilterSet::new(true) + add_filters of the same lines gives {}", sc.shape(), into_json(&res), into_json(&canon)));
+        }
+    } else if !matches!(res, Ok(Err(()))) {
+        // documented: "This function will fail if the FilterSet was not created in debug mode"
+        fails.push(format!("{}: a set that is not in debug mode must be refused with Err(()), got {}", sc.shape(), into_json(&res)));
+    }
+    (fails, res)
+}
+
 const REQ_TYPES: &[&str] = &["script", "image", "document", "xhr", "subdocument", "other", "websocket", "stylesheet"];
 fn rule_matches(f: &NetworkFilter, url: &str) -> bool {
     let host = url.split("://").nth(1).and_then(|r| r.split(|c| c == '/' || c == ':' || c == '?').next()).unwrap_or("x.test");
@@ -654,18 +849,35 @@ fn replay(a: &Args, p: &std::path::Path) {
             bad = fail.is_some();
         }
     } else {
+        // entry-point sequence: from the replay when present; older replays have the lines only
+        // (FilterSet::new(debug) + add_filters)
+        let script = Script::from_json(rp).unwrap_or_else(|| Script {
+            ctor: Ctor::New(rp["debug"].as_bool().unwrap_or(true)),
+            ops: vec![Op::AddFilters(lines.clone())],
+        });
+        let lines = script.effective_lines();
+        println!("entry points: {}", script.shape());
+        for o in &script.ops {
+            println!("  {:?}", o);
+        }
+        let (sfails, res) = oracle_script(&script);
+        for w in sfails {
+            println!("FAIL class=None: {}", w);
+            bad = true;
+        }
         let parsed: Vec<Parsed> = lines.iter().map(|l| parse_line(l)).collect();
         let refs: Vec<&Parsed> = parsed.iter().collect();
-        let res = run_list(&lines, true);
         match &res {
             Ok(Ok((r, u))) => println!("rules={} used={:?}", serde_json::to_string(r).unwrap(), u),
             Ok(Err(())) => println!("Err(())"),
             Err(p) => println!("PANIC: {}", p),
         }
         let mut singles = HashMap::new();
-        for (c, w) in oracle_list(&lines, &refs, &res, &mut singles) {
-            println!("FAIL class={:?}: {}", c, w);
-            bad = true;
+        if script.debug() {
+            for (c, w) in oracle_list(&lines, &refs, &res, &mut singles) {
+                println!("FAIL class={:?}: {}", c, w);
+                bad = true;
+            }
         }
     }
     let _ = a;
@@ -685,7 +897,7 @@ fn main() {
     let mut cs = Cases::new(&a.out, "Generated C20_Model");
     cs.shard = 150;
     let mut sm = Summary::default();
-    sm.rule = "lists of 1-8 lines (network rules from the shared grammar plus C20 shapes: regex metacharacters, domain=/from= lists mixing ~ / IDN / U+200D / Kelvin sign, /re/ rules, scheme-only rules, separator-only patterns, every option kind, $ inside the pattern; cosmetic rules with hostname/entity/negated/IDN/regex locations, ##, #@#, procedural, :style, +js; junk and comments). One case per distinct parsed line (conversion result field by field / error variant / panic) and one per list (rules in order + filters_used). non-trivial = the conversion emitted at least one rule (per line) / the list emitted rules from at least two lines or both block and ignore-previous entries (per list)".into();
+    sm.rule = "every list reaches the FilterSet through a random interleaving of the public entry points (add_filter one rule at a time, add_filters on runs of 0-n lines, add_filter_list on LF/CRLF texts with and without final newline / comment lines, clone in between; one list in five through a single entry point), once on FilterSet::new(true) (must convert exactly like new(true)+add_filters of the same lines, add_filter answering Ok exactly for rules) and once on FilterSet::new(false) / FilterSet::default() (must be refused with Err(()), never panic); lists of 1-8 lines (network rules from the shared grammar plus C20 shapes: regex metacharacters, domain=/from= lists mixing ~ / IDN / U+200D / Kelvin sign, /re/ rules, scheme-only rules, separator-only patterns, every option kind, $ inside the pattern; cosmetic rules with hostname/entity/negated/IDN/regex locations, ##, #@#, procedural, :style, +js; junk and comments). One case per distinct parsed line (conversion result field by field / error variant / panic) and one per list (rules in order + filters_used). non-trivial = the conversion emitted at least one rule (per line) / the list emitted rules from at least two lines or both block and ignore-previous entries (per list)".into();
     let mut seen: HashSet<String> = HashSet::new();
     let mut singles: HashMap<String, Option<bool>> = HashMap::new();
     let n_lists = 450 * a.scale;
@@ -710,6 +922,22 @@ fn main() {
             (0..n).map(|_| c20_line(&mut r)).collect()
         };
         let _ = li;
+        // the list reaches the set through a random interleaving of the public entry points; from
+        // here on `lines` are the lines the set was given (a list text split into its lines)
+        let script = gen_script(&mut r, &lines, Ctor::New(true));
+        let lines = script.effective_lines();
+        cs.stat("entry_point_script");
+        {
+            let (mut f, mut fs, mut fl, mut c) = (0, 0, 0, 0);
+            for o in &script.ops {
+                match o { Op::AddFilter(_) => f += 1, Op::AddFilters(_) => fs += 1, Op::AddFilterList(_) => fl += 1, Op::CloneSet => c += 1 }
+            }
+            for (n, k) in [(f, "entry_add_filter_calls"), (fs, "entry_add_filters_calls"), (fl, "entry_add_filter_list_calls"), (c, "entry_clone_calls")] {
+                for _ in 0..n { cs.stat(k) }
+            }
+            let kinds = (f > 0) as usize + (fs > 0) as usize + (fl > 0) as usize;
+            cs.stat(match kinds { 0 | 1 => "entry_script_single_entry_point", 2 => "entry_script_two_entry_points", _ => "entry_script_three_entry_points" });
+        }
         let parsed: Vec<Parsed> = lines.iter().map(|l| parse_line(l)).collect();
         // ---------------- per-line cases
         for p in &parsed {
@@ -794,11 +1022,31 @@ fn main() {
             }
         }
         // ---------------- list case
-        let res = run_list(&lines, true);
-        sm.oracle_evaluations += 1;
+        let (sfails, res) = oracle_script(&script);
+        sm.oracle_evaluations += 2;
+        let mut replay = script.to_json();
+        replay["lines"] = json!(lines);
+        for what in sfails {
+            sm.failure(None, &what, replay.clone());
+        }
         let refs: Vec<&Parsed> = parsed.iter().collect();
         for (class, what) in oracle_list(&lines, &refs, &res, &mut singles) {
-            sm.failure(class, &what, json!({"lines": lines}));
+            // (a panic is already reported by the entry-point oracle, with the same replay)
+            if !what.starts_with("into_content_blocking panicked") {
+                sm.failure(class, &what, replay.clone());
+            }
+        }
+        // the same calls on a set that is not in debug mode: refused, whatever loaded the rules
+        {
+            let nd = Script { ctor: if r.chance(1, 3) { Ctor::Default } else { Ctor::New(false) }, ops: script.ops.clone() };
+            cs.stat(if nd.ctor == Ctor::Default { "entry_script_default_ctor_refused" } else { "entry_script_new_false_refused" });
+            sm.oracle_evaluations += 1;
+            let (nfails, _) = oracle_script(&nd);
+            let mut nreplay = nd.to_json();
+            nreplay["lines"] = json!(lines);
+            for what in nfails {
+                sm.failure(None, &what, nreplay.clone());
+            }
         }
         let mut tn = vec![];
         let mut ti = vec![];
@@ -833,20 +1081,12 @@ fn main() {
             "into_out_eqb (into_out (into_content_blocking {} {} true [{}] [{}])) {}",
             table_lit(&tn), table_lit(&ti), nets.join("; "), coss.join("; "), lit
         );
-        let desc = json!({"kind": "list", "lines": lines, "impl": match &res {
+        let desc = json!({"kind": "list", "lines": lines, "entry_points": script.to_json(), "impl": match &res {
             Ok(Ok((rules, used))) => json!({"rules": rules, "filters_used": used}),
             Ok(Err(())) => json!("Err(())"),
             Err(p) => json!({"panic": p}),
         }});
         cs.case(expr, desc, nontrivial);
-        // a non-debug set must be refused, never converted
-        if li % 50 == 0 {
-            sm.oracle_evaluations += 1;
-            match run_list(&lines, false) {
-                Ok(Err(())) => {}
-                other => sm.failure(None, &format!("non-debug FilterSet: expected Err(()), got {}", match other { Err(p) => format!("panic {}", p), _ => "Ok".into() }), json!({"lines": lines, "debug": false})),
-            }
-        }
     }
     // fixed inclusion probes: the inputs of the three inclusion findings, so that every run sees them
     for (line, url) in [("||.com", "http://x.com/"), ("*$third-party", "wss://x.com/"), ("||example.com^", "https://user:pw@example.com/x"), ("||a", "s://u@a")] {
